@@ -302,6 +302,29 @@ func (f *freshness) compute(v ssa.Value) bool {
 		}
 		return f.notFresh(v, "load of "+x.X.String())
 	case *ssa.Parameter:
+		// a parameter of an unexported function that is only ever called directly: fresh
+		// when every call site passes a fresh value
+		if fn := x.Parent(); fn != nil {
+			if sites, ok := f.p.directCallSites(fn); ok {
+				pi := -1
+				for i, q := range fn.Params {
+					if q == x {
+						pi = i
+					}
+				}
+				all := pi >= 0
+				for _, c := range sites {
+					if pi < 0 || pi >= len(c.Common().Args) || !f.isFresh(c.Common().Args[pi]) {
+						all = false
+						break
+					}
+				}
+				if all {
+					return true
+				}
+				return f.notFresh(v, "parameter "+x.Name()+" (a call site passes a value that is not fresh)")
+			}
+		}
 		return f.notFresh(v, "parameter "+x.Name())
 	case *ssa.FreeVar:
 		return f.notFresh(v, "captured variable "+x.Name())
